@@ -6,7 +6,8 @@
 EXTENDS MPGrid
 CONSTANTS NMAX, MAXPTS, ALLPERM,
           PermKeys,     \* orders coded as 1000 a + b
-          Shifts        \* shifts coded as 1000 Q + 100 s1 + 10 s2 + s3
+          Shifts,       \* shifts coded as 1000 Q + 100 s1 + 10 s2 + s3
+          Dedup         \* TRUE: the code; FALSE: repeated points are selected again (sensitivity self-test)
 VARIABLES kind, n, var, perm, pc, pts, mp, gnone, gsel, gsub
 vars == <<kind, n, var, perm, pc, pts, mp, gnone, gsel, gsub>>
 DEN == 720                      \* multiple of Q n for n <= 6, Q <= 3 (and of 8, 9, 10, 12)
@@ -31,9 +32,9 @@ Half == << IF n[1] % 2 = 0 THEN n[1] \div 2 ELSE n[1], IF n[2] % 2 = 0 THEN n[2]
 Call == /\ pc = "in" /\ pc' = "done"
         /\ pts' = Permute(Base, perm)
         /\ mp' = GetMpGrid(Permute(Base, perm), DEN)
-        /\ gnone' = GridFromKpoints(Permute(Base, perm), NoGrid, DEN)
-        /\ gsel' = GridFromKpoints(Permute(Base, perm), n, DEN)
-        /\ gsub' = GridFromKpoints(Permute(Base, perm), Half, DEN)
+        /\ gnone' = GridFromKpointsV(Permute(Base, perm), NoGrid, DEN, Dedup)
+        /\ gsel' = GridFromKpointsV(Permute(Base, perm), n, DEN, Dedup)
+        /\ gsub' = GridFromKpointsV(Permute(Base, perm), Half, DEN, Dedup)
         /\ UNCHANGED <<kind, n, var, perm>>
 Next == Call
 Spec == Init /\ [][Next]_vars
